@@ -223,5 +223,56 @@ def generate(repo):
         summ[name] = {"paths": rep.npaths, "classes": len(classes)}
     out.append("def shortSpecialKeys : List (Nat × Nat) := [%s]\n" % ", ".join("(0, %d)" % c._cmdval for c in shorts))
     out.append("def initialiseKeys : List (Nat × Nat) := [%s]\n" % ", ".join("(0, %d)" % c._cmdval for c in inits))
+    # --- the 24-bit special commands of part 103: three bytes (address byte, instance byte, opcode byte) -------
+    from dali.device import general as dg
+    for m in ("pushbutton", "occupancy", "light"):
+        __import__("dali.device." + m)
+
+    def dev_members(base):
+        return [c for c in walk(dg._SpecialDeviceCommand) if not c.__name__.startswith("_")
+                and c.__init__ is base.__init__ and isinstance(c._addr, int)
+                and (isinstance(c._instance, int) or base is dg._SpecialDeviceCommandTwoParam)]
+
+    def mk_dev(cls, argnames):
+        def call(a):
+            o = object.__new__(cls)
+            o._addr = a["addr"]
+            if "inst" in a:
+                o._instance = a["inst"]
+            with _patched():
+                cls.__init__(o, *[a[k] for k in argnames])
+            return o.frame.as_integer
+        return call
+
+    BYTES = [-1, 0, 1, 127, 128, 255, 256, 1 << 20]
+    for name, base, argnames, doc in (
+            ("devSpecial0", dg._SpecialDeviceCommand, [], "_SpecialDeviceCommand.__init__()"),
+            ("devSpecial1", dg._SpecialDeviceCommandOneParam, ["param"], "_SpecialDeviceCommandOneParam.__init__(param)"),
+            ("devSpecial2", dg._SpecialDeviceCommandTwoParam, ["a", "b"], "_SpecialDeviceCommandTwoParam.__init__(a, b)")):
+        classes = dev_members(base)
+        if not classes:
+            raise RuntimeError("family %s is empty" % name)
+        params = ["addr"] + (["inst"] if len(argnames) < 2 else []) + argnames
+        rep = st.Entry(name, params, "Int", mk_dev(classes[0], argnames), doc).trace()
+        for c in classes[1:]:
+            if st.Entry(name, params, "Int", mk_dev(c, argnames), doc).trace().tree != rep.tree:
+                raise RuntimeError("class %s does not follow the paths of its family %s" % (qn(c), name))
+        for c in classes:
+            for _ in range(12):
+                args = [rng.choice(BYTES + [rng.randrange(256)]) for _ in argnames]
+                env = dict(zip(argnames, args), addr=c._addr)
+                if "inst" in params:
+                    env["inst"] = c._instance
+                try:
+                    want = ('ok', c(*args).frame.as_integer)
+                except Exception as e:  # noqa
+                    want = ('raise', exc_name(e))
+                got = rep.eval_tree(env)
+                if got != want:
+                    raise RuntimeError("trace of %s disagrees with %s%r: %r %r" % (name, qn(c), tuple(args), got, want))
+        out.append(rep.lean())
+        out.append("def %sKeys : List (Nat × Nat) := [%s]\n" % (name, ", ".join(
+            "(%d, %d)" % (c._addr, c._instance or 0) for c in classes)))
+        summ[name] = {"paths": rep.npaths, "classes": len(classes)}
     out.append("end DaliVerif.Gen.SrcSpecial")
     return "\n".join(out) + "\n", summ
